@@ -128,6 +128,11 @@ pub fn gen_layout(p: &Prog, t: &mut Tape, style: Style) -> Vec<Gap> {
                 }
             }
         };
+        if let Some(fg) = cur.and_then(|x| x.fixed_gap.as_ref()) {
+            let nl = fg.matches('\n').count() as u8;
+            let blanks = fg.rsplit('\n').next().unwrap_or("").to_string();
+            g = Gap { nl, blanks, fixed: true };
+        }
         if must_nl && g.nl == 0 {
             g.nl = 1;
             g.blanks = "  ".repeat(depth);
@@ -218,7 +223,7 @@ const MULTI_COMMENTS: &[&str] = &["{ multi\n  line }", "(* a\n b\n c *)", "{\n}"
 
 fn comment_tok(text: &str, line_start: bool, depth: u16, in_anon: bool) -> PTok {
     let kind = if text.starts_with("//") { Kind::CommentLine } else { Kind::CommentBlock };
-    PTok { text: text.to_string(), kind, line_start, depth, in_anon, inserted: true }
+    PTok { text: text.to_string(), kind, line_start, depth, in_anon, inserted: true, fixed_gap: None }
 }
 
 /// Insert comments according to the policy; marks are remapped.
